@@ -47,3 +47,28 @@ package memory
 //@   option nosafety
 //@   modifies nothing
 //@   ensures @documented b <==> (objectMatches(t, target.GetObject()) && relationMatches(t, target.GetRelation()) && userMatches(t, target.GetUser()))
+
+// condition-name filter: "" stands for unconditioned tuples; an empty list is no filter
+//@ spec conditionMatches(r ref, conds slice) bool = len(conds) == 0 || sliceContains(conds, r.ConditionName)
+
+// ReadUsersetTuples: object, relation, userset-or-wildcard users only, condition names (the allowed (type, relation)
+// pairs and absence of duplicates are not part of this contract)
+//@ spec usersetRecordMatches(r ref, f S_storage.ReadUsersetTuplesFilter) bool = objectMatches(r, f.Object) && relationMatches(r, f.Relation) && tuple.GetUserTypeFromUser(r.User) == tuple.UserSet && conditionMatches(r, f.Conditions)
+
+//@ func (*MemoryBackend).ReadUsersetTuples(s, ctx, store, filter, opts) (it, err)
+//@   property C13
+//@   option nosafety
+//@   loop 0 invariant forall j :: 0 <= j && j < len(matches) ==> usersetRecordMatches(matches[j], filter)
+//@   loop 1 invariant forall j :: 0 <= j && j < len(matches) ==> usersetRecordMatches(matches[j], filter)
+//@   ensures @onlyMatching err == nil ==> forall i :: 0 <= i && i < len(as(it, "*staticIterator").records) ==> usersetRecordMatches(as(it, "*staticIterator").records[i], filter)
+
+// ReadStartingWithUser: object type, relation, object-id set (an intersection), condition names, one of the user filters
+//@ spec rswuRecordMatches(r ref, f S_storage.ReadStartingWithUserFilter) bool = r.ObjectType == f.ObjectType && r.Relation == f.Relation && conditionMatches(r, f.Conditions) && (exists k :: 0 <= k && k < len(f.UserFilter) && r.User == (f.UserFilter[k].GetRelation() != "" ? f.UserFilter[k].GetObject() + "#" + f.UserFilter[k].GetRelation() : f.UserFilter[k].GetObject()))
+
+//@ func (*MemoryBackend).ReadUserTuple(s, ctx, store, filter, opts) (res, err)
+//@   property C13
+//@   option nosafety
+//@   ensures @found err == nil ==> old(objectMatches(found, filter.Object) && relationMatches(found, filter.Relation) && userMatches(found, filter.User) && conditionMatches(found, filter.Conditions))
+//@   monitor returned
+//@     ghost found *storage.TupleRecord = nil
+//@     after call (*storage.TupleRecord).AsTuple args r : found = r
